@@ -134,7 +134,7 @@ type OpResult struct {
 func (r OpResult) String() string {
 	switch {
 	case r.Hang:
-		return "HANG@" + r.Where
+		return "HANG"
 	case r.Panicked:
 		return "PANIC@" + r.Where
 	}
@@ -204,7 +204,12 @@ func panicSite() string {
 // CheckOp records a panic or hang as a C10 failure.
 func (c *Ctx) CheckOp(what string, r OpResult) {
 	if r.Hang {
-		c.Fail("C10/hang", r.Where, "%s did not return: %s", what, r.Value)
+		// where the budget happened to run out is arbitrary: classify by operation
+		op := what
+		if i := strings.IndexAny(op, " ("); i > 0 {
+			op = op[:i]
+		}
+		c.Fail("C10/hang", op, "%s did not return: %s (budget ran out in %s)", what, r.Value, r.Where)
 	} else if r.Panicked {
 		c.Fail("C10/panic", r.Where, "%s panicked: %s", what, r.Value)
 	}
